@@ -62,6 +62,21 @@ func (e ExitReason) GetHostCallID() uint8 {
 	return uint8(e)
 }
 
+// hostCallIDMask selects the payload bits of a HOST_CALL exit reason (the top byte is the type).
+const hostCallIDMask = ExitReason(1)<<56 - 1
+
+// HostCallReason packs a host-call identifier without disturbing the reason type: identifiers
+// that do not fit 56 bits (sign-extended immediates) keep only their low 56 bits, which still
+// cannot collide with any defined identifier.
+func HostCallReason(id uint64) ExitReason {
+	return ExitHostCall | (ExitReason(id) & hostCallIDMask)
+}
+
+// HostCallID returns the full (56-bit) host-call identifier; GetHostCallID truncates to 8 bits.
+func (e ExitReason) HostCallID() uint64 {
+	return uint64(e & hostCallIDMask)
+}
+
 func (e ExitReason) GetPageFaultAddress() uint32 {
 	return uint32(e)
 }
